@@ -3,13 +3,21 @@
 # change under seeded/*/patch.diff against the check of its property (quick tier unless the name is
 # listed in mutations/THOROUGH), plus the cross-checks of seeded/CROSS, and prints one line each:
 #   name | check | tier | DETECTED/MISSED
+# run_mutations.sh [log] [k n]   k n: run only every n-th entry starting with the k-th (parallel streams;
+#   each stream uses its own scratch-worktree slot, and VERIF_WORKERS can be lowered to share the cores)
 cd "$(dirname "$0")"
 out=${1:-build/mutations.log}
+k=${2:-0}; n=${3:-1}
+export MUTATE_SLOT=slot$k
 mkdir -p build
 : > $out
+i=0
 one() { # name patch id tier
-  res=$(./mutate.sh $2 $3 $4 2>&1 | tail -1 | awk '{print $1}')
-  echo "$1 | $3 | $4 | $res" | tee -a $out
+  if [ $((i % n)) -eq $k ]; then
+    res=$(./mutate.sh $2 $3 $4 2>&1 | tail -1 | awk '{print $1}')
+    echo "$1 | $3 | $4 | $res" | tee -a $out
+  fi
+  i=$((i+1))
 }
 for p in mutations/*.diff; do
   name=$(basename $p .diff); id=$(echo $name | cut -d- -f1 | tr a-z A-Z)
@@ -21,8 +29,8 @@ for d in seeded/*/; do
   tier=quick; grep -qx "$name" mutations/THOROUGH 2>/dev/null && tier=thorough
   one $name $d/patch.diff $id $tier
 done
-grep -v '^#' seeded/CROSS | while read name chk; do
+while read name chk; do
   [ -z "$name" ] && continue
   id=${chk%%:*}; tier=quick; [[ $chk == *:thorough ]] && tier=thorough
   one $name seeded/$name/patch.diff $id $tier
-done
+done < <(grep -v '^#' seeded/CROSS)
